@@ -309,6 +309,9 @@ func main() {
 	sH := &spec{writers: [][]wop{wH}, readers: [][]string{{churn, never}}}
 	sH3 := &spec{writers: [][]wop{wH, w2own}, readers: [][]string{{churn}}}
 	sH2 := &spec{pre: []string{"10.2.0.0/16", "10.9.0.0/16"}, writers: [][]wop{{A("10.2.0.0/16"), R("10.2.0.0/16"), A("10.4.0.0/16")}}, readers: [][]string{{churn, "10.9.1.1"}}}
+	// 0.0.0.0/0 present (from before, or added by a second writer and kept) while a writer crosses the list->maps switch
+	sB2 := &spec{pre: []string{"192.168.0.0/24", "0.0.0.0/0"}, writers: [][]wop{w1short}, readers: [][]string{{never, always}}}
+	sB3 := &spec{pre: pre, writers: [][]wop{w1short, {A("0.0.0.0/0")}}, readers: [][]string{{never}}}
 	P := func(b ...int) sdrive.Plan { return sdrive.Plan{Bounds: b} }
 	PS := func(n int, b ...int) sdrive.Plan { return sdrive.Plan{Bounds: b, Shards: n} }
 	scens := []sdrive.Scenario{
@@ -318,6 +321,10 @@ func main() {
 			Quick: P(0, 1, -1), Thorough: P(0, 1, -1), Body: body(sA), MinOutcomes: 2},
 		{Name: "B-writer+matchall+reader", Props: []string{"C12"}, About: "writer crossing the switch, second writer toggling 0.0.0.0/0, reader",
 			Quick: PS(8, 0, 1, 2, 3), Thorough: PS(16, 0, 1, 2, -1), Body: body(sB), MinOutcomes: 2},
+		{Name: "B2-matchall-present-across-switch", Props: []string{"C12"}, About: "0.0.0.0/0 present from the start and never removed while a writer crosses the list->maps switch: every lookup is true throughout",
+			Quick: P(0, 1, -1), Body: body(sB2), MinOutcomes: 1},
+		{Name: "B3-matchall-added-and-kept", Props: []string{"C12"}, About: "a second writer adds 0.0.0.0/0 and keeps it while the first crosses the switch; afterwards everything is contained",
+			Quick: PS(8, 0, 1, 2), Thorough: PS(16, 0, 1, 2, 3, -1), Body: body(sB3), MinOutcomes: 2},
 		{Name: "C-two-writers+reader", Props: []string{"C12"}, About: "two writers owning different ranges, reader on the churned address",
 			Quick: PS(8, 0, 1, 2, 3), Thorough: PS(16, 0, 1, 2, -1), Body: body(sC), MinOutcomes: 2},
 		{Name: "D-removed-slot+two-readers", Props: []string{"C12"}, About: "a slot removed before the switch, two readers",
